@@ -71,6 +71,9 @@ func progName(r *prng.R) string {
 	return "f.bcl"
 }
 
+// c09HugeTerms: terms of a flat sum; each compiles to 2 bytes of code.
+var c09HugeTerms = []int{1100000, 560000, 1600000}
+
 func (c09) Gen(seed uint64, idx int, tier string) *Scenario {
 	r := prng.New(seed, "C09", idx)
 	sc := &Scenario{Prop: "C09", Seed: seed, Idx: idx}
@@ -88,8 +91,13 @@ func (c09) Gen(seed uint64, idx int, tier string) *Scenario {
 	}
 	if r.Chance(1, 40) {
 		// programs at the compiler's own limits are accepted programs too (1024 locals, deep nesting, many blocks)
-		sc.Src = gen.LimitProgram(r, prng.Pick(r, []string{"locals", "blocklocals", "blocks", "manyblocks", "rightnest", "deepblocks-vars", "manyconsts"}), false)
+		sc.Src = gen.LimitProgram(r, prng.Pick(r, []string{"locals", "blocklocals", "blocks", "manyblocks", "rightnest", "deepblocks-vars", "manyconsts", "negchain", "notchain", "flatchain", "parens"}), false)
 		sc.Class = "limit"
+	}
+	if idx < len(c09HugeTerms) {
+		// "all magnitudes of code size": code sections beyond 1 and 2 MiB, once per batch
+		sc.Src = []byte("print 1" + strings.Repeat("+1", c09HugeTerms[idx]) + "\n")
+		sc.Class = "hugecode"
 	}
 	sc.Name = progName(r)
 	sc.SetStr("partition", prng.Pick(r, []string{"whole", "bytewise", "fixed", "geometric", "twocut", "boundaries", "page", "zeros", "eofdata", "allcuts", "boundaries"}))
